@@ -600,8 +600,13 @@ struct WorldT : PolicyOps {
     static constexpr bool kCompat = has_call_error<P>::value;
     static constexpr bool kTrace =
         P::template has_facet<y2::policy::trace_output>;
-    static constexpr bool kMap =
-        std::is_base_of_v<y2::policy::vptr_map<P>, P>;
+    template<class Q, class = void>
+    struct vptrs_is_map : std::false_type {};
+    template<class Q>
+    struct vptrs_is_map<
+        Q, std::void_t<typename decltype(Q::vptrs)::key_type>>
+        : std::true_type {};
+    static constexpr bool kMap = vptrs_is_map<P>::value;
 
     // storage for registration records: static storage duration, zeroed
     alignas(16) static inline unsigned char
